@@ -5,7 +5,16 @@ simulated with hand-driven clocks; the output read after *every* event of a sche
 with the register-level Lean model (`Model/Cdc.lean`) and with the contract (`Spec/Cdc.lean`).
 
 A schedule is a list of events: "i" (input-clock edge), "o" (output-clock edge), "b" (both clocks
-rise in one `ctx.set`), or an integer (drive the input signal).
+have their active edge in one `ctx.set`), an integer (drive the input signal), and - FFSynchronizer
+only - "R" / "r" (raise / release the reset of the output domain).
+
+FFSynchronizer is built with input and output of *different shapes* (signed/unsigned in all four
+combinations, output narrower / equal / wider): the expected output pattern is the value of the input
+converted into the output's shape, computed by the driver (`Model.extendTo`, `Spec.delivered`), never
+by amaranth.  Its output domain is declared with a synchronous or an asynchronous reset and that
+reset is driven during the schedule: a reset-less synchroniser (the default) must be unaffected, a
+`reset_less=False` one shows `init` again.  FFSynchronizer and PulseSynchronizer are also run in
+output domains whose active edge is the falling one.
 
 Streams
   * exhaustive: the reachable state graph of the model is enumerated breadth-first through the
@@ -14,7 +23,10 @@ Streams
   * random: long random interleavings (stages 2-5, widths 0-9, signed and unsigned, in- and
     out-of-range initial values, both async edges, pulse schedules that respect / violate the
     spacing hypothesis);
-  * malformed: constructor rejections compared as error kinds.
+  * malformed: constructor rejections compared as error kinds;
+  * elaboration: every primitive x async_edge x `clk_edge` of the output domain, elaborated for the
+    simulator and for RTLIL; `DomainRequirementFailed` expected exactly where the model's
+    `RequirePosedge` bookkeeping says so (AsyncFFSynchronizer for either edge, ResetSynchronizer).
 """
 import concurrent.futures
 import os
@@ -28,14 +40,22 @@ EXE = "amodel_c17"
 # ------------------------------------------------------------------------------------------------
 # the real code
 
-def _drive(ctx, cdi, cdo, ev, set_input):
+def _drive(ctx, cdi, cdo, ev, set_input, neg_o=False):
+    """one event.  The input clock idles low and is active on its rising edge; the output clock of a
+    `clk_edge="neg"` domain (`neg_o`) idles high and is active on its falling edge, so that in every
+    case an event contains exactly one active edge and "b" has both active edges in one `ctx.set`."""
     from amaranth.hdl import Cat
     if ev == "i":
         ctx.set(cdi.clk, 1); ctx.set(cdi.clk, 0)
     elif ev == "o":
-        ctx.set(cdo.clk, 1); ctx.set(cdo.clk, 0)
+        ctx.set(cdo.clk, 0 if neg_o else 1); ctx.set(cdo.clk, 1 if neg_o else 0)
     elif ev == "b":
-        ctx.set(Cat(cdi.clk, cdo.clk), 3); ctx.set(Cat(cdi.clk, cdo.clk), 0)
+        ctx.set(Cat(cdi.clk, cdo.clk), 0b01 if neg_o else 0b11)
+        ctx.set(Cat(cdi.clk, cdo.clk), 0b10 if neg_o else 0b00)
+    elif ev == "R":
+        ctx.set(cdo.rst, 1)
+    elif ev == "r":
+        ctx.set(cdo.rst, 0)
     else:
         set_input(ctx, ev)
 
@@ -101,7 +121,8 @@ def simulate(case):
         od = "sync" if dom_kw in omit else "o"            # documented default of o_domain / domain
         m = Module()
         m.domains.i = cdi = ClockDomain("i")
-        cdo = ClockDomain(od, async_reset=bool(case.get("async_dom")))
+        neg_o = bool(case.get("neg_dom"))
+        cdo = ClockDomain(od, async_reset=bool(case.get("async_dom")), **({"clk_edge": "neg"} if neg_o else {}))
         m.domains += cdo
         heartbeat = Signal()
         m.d.i += heartbeat.eq(~heartbeat)          # makes "i" a real clock of the design
@@ -115,9 +136,10 @@ def simulate(case):
         mask = 1
         if kind == "ff":
             w = case["w"]
-            mask = (1 << w) - 1
             inp, set_input = make_input(iform, w, case["signed"], case["i0"], aux)
-            out = Signal(signed(w) if case["signed"] else unsigned(w))
+            wo = case.get("wo", w)
+            out = Signal(signed(wo) if case.get("osigned", case["signed"]) else unsigned(wo))
+            mask = (1 << wo) - 1
             if "init" not in omit:
                 kw[case.get("init_kw", "init")] = case["init"]     # "init" or the deprecated "reset"
             elif case["init"] != 0:
@@ -154,9 +176,11 @@ def simulate(case):
         outs = []
 
         async def tb(ctx):
+            if neg_o:
+                ctx.set(cdo.clk, 1)                 # idle level; a rising edge is not an active one
             outs.append(ctx.get(out) & mask)
             for ev in evs:
-                _drive(ctx, cdi, cdo, ev, set_input)
+                _drive(ctx, cdi, cdo, ev, set_input, neg_o)
                 outs.append(ctx.get(out) & mask)
         sim.add_testbench(tb)
         sim.run()
@@ -216,7 +240,9 @@ def request(case):
     k = case["kind"]
     if k == "ff":
         mask = (1 << case["w"]) - 1
-        return f"(ff {case['n']} {case['w']} {case['init']} {case['i0'] & mask} {ser_evs(case['evs'])})"
+        return (f"(ff {case['n']} {case['w']} {1 if case['signed'] else 0} {case.get('wo', case['w'])} {case['init']} "
+                f"{case['i0'] & mask} {1 if case.get('reset_less', True) else 0} {1 if case.get('async_dom') else 0} "
+                f"{ser_evs(case['evs'])})")
     if k in ("async", "reset"):
         return f"(async {case['n']} {1 if case['pos'] else 0} {case['i0']} {ser_evs(case['evs'])})"
     return f"(pulse {case['n']} {ser_evs(case['evs'])})"
@@ -251,8 +277,23 @@ def rand_ff(rng):
         else: evs.append(rng.randint(0, mask))
     if sg:
         evs = [e if isinstance(e, str) or e <= mask else e & mask for e in evs]
-    c = {"kind": "ff", "n": n, "w": w, "signed": sg, "init": init, "i0": rng.randint(0, mask),
-         "reset_less": rng.random() < 0.8, "evs": evs}
+    # shape of the output: independent of the input's (narrower / equal / wider, signed or not)
+    r = rng.random()
+    if r < 0.35 or (w == 0 and r >= 0.7):
+        wo = w
+    elif r < 0.7:
+        wo = w + rng.randint(1, 4)
+    else:
+        wo = rng.randint(0, w - 1)
+    osg = wo >= 1 and rng.random() < 0.4
+    # the reset of the output domain: synchronous or asynchronous, driven in half of the schedules
+    adom = rng.random() < 0.5
+    if rng.random() < 0.5:
+        p_rst = rng.choice([0.04, 0.1])
+        evs = [(("R" if rng.random() < 0.55 else "r") if rng.random() < p_rst else e) for e in evs]
+    c = {"kind": "ff", "n": n, "w": w, "signed": sg, "wo": wo, "osigned": osg, "init": init,
+         "i0": rng.randint(0, mask), "reset_less": rng.random() < 0.7, "async_dom": adom,
+         "neg_dom": rng.random() < 0.2, "evs": evs}
     # how the constructor is called: which arguments are left to their defaults, how the input is written
     omit = []
     if rng.random() < 0.4:
@@ -319,7 +360,7 @@ def rand_pulse(rng):
         if rng.random() < 0.5:
             evs.append(0)
         evs += ["o"] * (n + rng.randint(0, 2))
-    return {"kind": "pulse", "n": n, "mode": mode, "evs": evs,
+    return {"kind": "pulse", "n": n, "mode": mode, "evs": evs, "neg_dom": rng.random() < 0.2,
             "omit": ["stages"] if n == 2 and rng.random() < 0.5 else []}
 
 
@@ -376,6 +417,27 @@ def exhaustive_cases(chk, quick):
         graphs.append((base, ["o", "b", "i"] + list(range(1 << w))))
         meta.append(({"primitive": "FFSynchronizer", "stages": n, "width": w, "init": "omitted", "i0": (1 << w) - 1},
                      [["o"] * n, [0] + ["b"] * n]))
+    # input and output of different shapes: signed(1) -> signed(2) with a negative init,
+    # signed(1) -> unsigned(3) through three stages (thorough: 2-bit inputs, widening and narrowing)
+    shape_cfg = [(2, 1, True, 2, True, -1), (3, 1, True, 3, False, 0)]
+    if not quick:
+        shape_cfg += [(2, 2, True, 4, False, 0), (2, 2, True, 4, True, -2), (2, 2, False, 1, True, 3), (2, 2, True, 1, False, -1)]
+    for n, w, sg, wo, osg, init in shape_cfg:
+        base = {"kind": "ff", "n": n, "w": w, "signed": sg, "wo": wo, "osigned": osg, "init": init, "i0": 0}
+        graphs.append((base, ["o", "b", "i"] + list(range(1 << w))))
+        meta.append(({"primitive": "FFSynchronizer", "stages": n, "width": w, "input_signed": sg, "output_width": wo,
+                      "output_signed": osg, "init": init},
+                     [["o"] * n, [(1 << w) - 1] + ["b"] * n]))
+    # the reset of the output domain is part of the alphabet: reset-less / resettable stages x
+    # synchronous / asynchronous reset, on a falling-edge domain for one of them
+    for rl, adom, init, neg in [(True, True, 0, False), (True, False, 1, True), (False, True, 1, False), (False, False, 0, False)]:
+        base = {"kind": "ff", "n": 2, "w": 1, "signed": False, "init": init, "i0": 0, "reset_less": rl,
+                "async_dom": adom, "neg_dom": neg}
+        graphs.append((base, ["o", "b", "i", 0, 1, "R", "r"]))
+        meta.append(({"primitive": "FFSynchronizer", "stages": 2, "width": 1, "init": init, "reset_less": rl,
+                      "o_domain_async_reset": adom, "o_domain_clk_edge": "neg" if neg else "pos",
+                      "alphabet": "clock edges, input values, reset raised / released"},
+                     [["o"] * 2, ["r", 1 - init] + ["b"] * 2]))
     for n in (2, 3, 4, 5):
         for kind, pos, adom in [("async", True, False), ("async", False, False), ("reset", True, False), ("reset", True, True)]:
             for i0 in (0, 1):
@@ -430,11 +492,17 @@ def compare(chk, case, impl, resp):
     applicable = [True] * len(impl)
     if kind == "pulse":
         applicable = [x == 1 for x in ints(d["spaced"])]
+    cfg = ""
+    if kind == "ff":
+        cfg = (f" {'signed' if case['signed'] else 'unsigned'}({case['w']}) -> "
+               f"{'signed' if case.get('osigned', case['signed']) else 'unsigned'}({case.get('wo', case['w'])}) init={case['init']} "
+               f"reset_less={case.get('reset_less', True)} o_domain(async_reset={bool(case.get('async_dom'))}, "
+               f"clk_edge={'neg' if case.get('neg_dom') else 'pos'})")
     # the property itself, on this input
     for j, (a, s, ok) in enumerate(zip(impl, spec, applicable)):
         if ok and a != s:
             chk.violation(
-                f"{kind} stages={case['n']}: output {a} after event #{j} ({'start' if j == 0 else case['evs'][j - 1]}), "
+                f"{kind} stages={case['n']}{cfg}: output {a} after event #{j} ({'start' if j == 0 else case['evs'][j - 1]}), "
                 f"the contract says {s}",
                 dict(replay, impl=impl, model=model, spec=spec, first_difference=j))
             return False
@@ -505,6 +573,74 @@ def malformed(chk):
     return len(trials)
 
 
+def elaboration(chk):
+    """every primitive in an output domain of either `clk_edge`, elaborated for the simulator and for
+    RTLIL; the outcome (ok / error kind) is compared with the model's `RequirePosedge` bookkeeping
+    (`Model.elaborate`) and with the contract (`Spec.elabContract`)."""
+    from amaranth.hdl import Module, Signal, ClockDomain
+    from amaranth.sim import Simulator
+    from amaranth.back import rtlil
+    from amaranth.lib import cdc
+
+    def build(prim, edge, clk_edge, od, stages, adom):
+        m = Module()
+        m.domains.i = ClockDomain("i")
+        m.domains += ClockDomain(od, clk_edge=clk_edge, async_reset=adom)
+        heartbeat, keep = Signal(), Signal()
+        m.d.i += heartbeat.eq(~heartbeat)
+        m.d[od] += keep.eq(~keep)
+        dom = {} if od == "sync" else {"o_domain": od}
+        if prim == "ff":
+            m.submodules.dut = cdc.FFSynchronizer(Signal(3), Signal(3), stages=stages, **dom)
+        elif prim == "async":
+            m.submodules.dut = cdc.AsyncFFSynchronizer(Signal(), Signal(), stages=stages,
+                                                       **({} if edge is None else {"async_edge": edge}), **dom)
+        elif prim == "reset":
+            m.submodules.dut = cdc.ResetSynchronizer(Signal(), stages=stages, **({} if od == "sync" else {"domain": od}))
+        else:
+            m.submodules.dut = cdc.PulseSynchronizer("i", od, stages=stages)
+        return m
+
+    trials = []
+    for prim in ("ff", "async", "reset", "pulse"):
+        for edge in (("pos", "neg", None) if prim == "async" else ("n/a",)):
+            for clk_edge in ("pos", "neg"):
+                for od in ("o", "sync"):
+                    for stages in (2, 3):
+                        for adom in ((False, True) if prim in ("reset", "ff") else (False,)):
+                            for route in ("simulator", "rtlil"):
+                                trials.append((prim, edge, clk_edge, od, stages, adom, route))
+    reqs = [f"(elab {prim} {0 if edge == 'neg' else 1} {1 if clk_edge == 'neg' else 0})"
+            for prim, edge, clk_edge, _od, _st, _ad, _route in trials]
+    names = {"ff": "FFSynchronizer", "async": "AsyncFFSynchronizer", "reset": "ResetSynchronizer", "pulse": "PulseSynchronizer"}
+    for t, req, resp in zip(trials, reqs, chk.driver.ask(reqs)):
+        prim, edge, clk_edge, od, stages, adom, route = t
+        try:
+            m = build(prim, edge, clk_edge, od, stages, adom)
+            if route == "simulator":
+                Simulator(m)
+            else:
+                rtlil.convert(m, ports=[])
+            impl = "ok"
+        except Exception as e:                       # noqa: BLE001
+            impl = common.errkind(e)
+        d = common.kv(resp)
+        want = {k: ("ok" if d.get(k) == "ok" else "other:" + str(d.get(k))) for k in ("model", "spec")}
+        chk.count()
+        edge_txt = "" if prim != "async" else f" async_edge={'omitted' if edge is None else edge}"
+        chk.hist("elaboration_outcome", f"{names[prim]}{edge_txt} in clk_edge={clk_edge} domain: {impl}")
+        chk.distinct(("elab",) + t, nontrivial=impl != "ok")
+        replay = {"primitive": names[prim], "async_edge": edge, "o_domain": od, "o_domain_clk_edge": clk_edge,
+                  "o_domain_async_reset": adom, "stages": stages, "elaborated_for": route, "impl": impl,
+                  "request": req, "response": resp}
+        if impl != want["spec"]:
+            chk.violation(f"{names[prim]}{edge_txt} in a clk_edge={clk_edge!r} output domain: elaboration for "
+                          f"{route} gives {impl}, the contract says {want['spec']}", replay)
+        elif impl != want["model"]:
+            chk.not_shown(f"{names[prim]} elaboration: model differs", replay)
+    return len(trials)
+
+
 # ------------------------------------------------------------------------------------------------
 
 def run(chk):
@@ -537,7 +673,35 @@ def run(chk):
         name = {"ff": "FFSynchronizer", "async": "AsyncFFSynchronizer", "reset": "ResetSynchronizer",
                 "pulse": "PulseSynchronizer"}[c["kind"]]
         chk.distinct((c["kind"], c["n"], c.get("w"), c.get("init"), c.get("pos"), c.get("i0"),
-                      tuple(sorted(c.get("omit", ()))), c.get("iform"), tuple(evs)), nontrivial)
+                      tuple(sorted(c.get("omit", ()))), c.get("iform"), tuple(evs),
+                      c.get("signed"), c.get("wo"), c.get("osigned"), c.get("reset_less"), c.get("async_dom"),
+                      c.get("neg_dom")), nontrivial)
+        if c["kind"] in ("ff", "pulse"):
+            chk.hist("o_domain_clk_edge", f"{name}: {'neg' if c.get('neg_dom') else 'pos'}")
+        if c["kind"] == "ff":
+            w, wo = c["w"], c.get("wo", c["w"])
+            chk.hist("ff_input_to_output_shape",
+                     f"{'signed' if c['signed'] else 'unsigned'} -> {'signed' if c.get('osigned', c['signed']) else 'unsigned'}, "
+                     f"output {'narrower' if wo < w else 'wider' if wo > w else 'same width'}")
+            if c["signed"] and wo > w:
+                # an output pattern with bits above the input's width can only come from a negative value
+                init_neg = w >= 1 and ((c["init"] >> (w - 1)) & 1) == 1
+                later = [o for j, o in enumerate(outs) if j > 0 and sum(1 for e in evs[:j] if e in ("o", "b")) >= c["n"]]
+                chk.hist("ff_signed_input_wider_output",
+                         ("negative init shown, " if init_neg and outs and outs[0] >> w else "init not negative, ")
+                         + ("negative value delivered" if any(o >> w for o in later if not init_neg or o != outs[0])
+                            else "no negative value delivered"))
+            d = common.kv(resp)
+            dirty, rst, hit = ints(d.get("dirty", "")), False, None
+            for j, e in enumerate(evs):
+                if e == "R" and not rst:
+                    hit = "in flight" if (dirty[j] or hit == "in flight") else (hit or "at init")
+                rst = True if e == "R" else False if e == "r" else rst
+            chk.hist("ff_o_domain_reset",
+                     f"reset_less={c.get('reset_less', True)} async_reset={bool(c.get('async_dom'))}: "
+                     + ("reset never raised" if hit is None else
+                        "reset raised while the stages hold data" if hit == "in flight" else
+                        "reset raised only with the stages at init"))
         for o in c.get("omit", ()):
             chk.hist("argument_left_to_default", f"{name}.{o}")
         if not c.get("omit"):
@@ -568,6 +732,7 @@ def run(chk):
             if nontrivial and isinstance(impl, list):
                 chk.sample({"case": {k: v for k, v in c.items() if k != "evs"}, "events": evs[:40], "outputs": outs[:41]})
     n_ctor = malformed(chk)
+    n_elab = elaboration(chk)
 
     try:
         f4 = f4_in_driven_domain()
@@ -586,12 +751,18 @@ def run(chk):
     }
     chk.cov["rule"] = (
         f"{n_exh} exhaustive transition-cover schedules + {n_rand} random schedules (one third per primitive family) + "
-        f"{n_ctor} constructor calls; a case is one (primitive, stages, width/init/edge, schedule); the output after "
+        f"{n_ctor} constructor calls + {n_elab} elaborations (primitive x async_edge x clk_edge / name / reset kind of "
+        f"the output domain x stages x simulator|rtlil); a case is one (primitive, stages, width/init/edge, schedule); the output after "
         "every event is compared with model and contract; distinct = different configuration or schedule; "
         "non-trivial = the output changes during the schedule (constructor stream: the call is rejected)")
     chk.assumptions += [
         "hand-driven clocks: `ctx.set(clk, 1); ctx.set(clk, 0)` is one edge; both clocks in one `ctx.set` are coincident edges",
         "the input signal changes only between clock edges (a change coincident with an edge is a physical race and is not part of the schedules)",
-        "the domain resets of the i/o domains are never asserted; platform overrides (get_ff_sync, get_async_ff_sync) are not exercised",
+        "the output domain's reset is driven for FFSynchronizer only, between clock edges (a reset change coincident with "
+        "an edge is a race and not part of the schedules); the input domain's reset is never asserted; the reset of a "
+        "domain driven by ResetSynchronizer is driven by it alone; platform overrides (get_ff_sync, get_async_ff_sync) are not exercised",
+        "FFSynchronizer's output is read as a bit pattern of the output signal's width; the expected pattern is the value of "
+        "the input converted by the driver (sign-extend a signed input, truncate), independent of the output's signedness",
+        "falling-edge output domains: the hand-driven clock idles high, one event = one falling (active) edge",
         "pulse contract compared only on the prefixes of a schedule that satisfy the spacing hypothesis; on the others only the model is compared",
     ]
